@@ -79,7 +79,7 @@ PROPS = {
     "C14": {
         "level": "exploration",
         "tests": [
-            {"name": "TestC14", "quick": 1000, "thorough": 80000},
+            {"name": "TestC14", "quick": 2000, "thorough": 80000},
         ],
     },
     "C18": {
@@ -119,7 +119,7 @@ PROPS = {
     "C09": {
         "level": "exploration",
         "tests": [
-            {"name": "TestC09", "quick": 900, "thorough": 60000, "shards_quick": 10},
+            {"name": "TestC09", "quick": 1600, "thorough": 60000, "shards_quick": 10},
             {"name": "TestC09Race", "quick": 120, "thorough": 4000, "race": True, "shards_quick": 6},
             {"name": "TestC09Preempt3", "kind": "plain", "quick": 1, "thorough": 1, "shards_quick": 6, "shards_thorough": 6},
             {"name": "TestC09Exhaustive", "kind": "plain", "quick": 1, "thorough": 1, "tiers": ("thorough",), "shards_thorough": 12},
